@@ -945,7 +945,47 @@ def _name_uses(fn):
     return {k: (st.get(k, 0), ld.get(k, 0)) for k in set(st) | set(ld)}
 
 
+def _expand_module_aliases(tree):
+    """`U64 = np.uint64` at module level (bound once, to a dotted name): every use of the alias is replaced by the dotted name."""
+    stores = {}
+    for n in ast.walk(tree):
+        if isinstance(n, ast.Name) and isinstance(n.ctx, (ast.Store, ast.Del)):
+            stores[n.id] = stores.get(n.id, 0) + 1
+        elif isinstance(n, ast.arg):
+            stores[n.arg] = stores.get(n.arg, 0) + 1
+        elif isinstance(n, (ast.FunctionDef, ast.ClassDef)):
+            stores[n.name] = stores.get(n.name, 0) + 1
+        elif isinstance(n, ast.alias):
+            nm = (n.asname or n.name).split(".")[0]
+            stores[nm] = stores.get(nm, 0) + 1
+
+    def dotted_expr(v):
+        return isinstance(v, ast.Name) or (isinstance(v, ast.Attribute) and dotted_expr(v.value))
+    aliases = {}
+    for n in tree.body:
+        if isinstance(n, ast.Assign) and len(n.targets) == 1 and isinstance(n.targets[0], ast.Name) and isinstance(n.value, ast.Attribute) \
+                and dotted_expr(n.value) and stores.get(n.targets[0].id) == 1:
+            root = n.value
+            while isinstance(root, ast.Attribute):
+                root = root.value
+            if stores.get(root.id, 0) <= 1:          # the module the alias points into is itself bound once (an import)
+                aliases[n.targets[0].id] = n.value
+    if not aliases:
+        return 0
+    count = [0]
+
+    class T(ast.NodeTransformer):
+        def visit_Name(self, n):
+            if isinstance(n.ctx, ast.Load) and n.id in aliases:
+                count[0] += 1
+                return ast.copy_location(copy.deepcopy(aliases[n.id]), n)
+            return n
+    T().visit(tree)
+    return count[0]
+
+
 def normalize(tree):
+    _expand_module_aliases(tree)
     inl = Inliner(tree)
     n = inl.run()
     tree._inlined_helpers = set(inl.inlined_names)
